@@ -4,6 +4,8 @@ import (
 	"fmt"
 
 	cose "github.com/veraison/go-cose"
+
+	"verif/refcose"
 )
 
 func init() {
@@ -66,6 +68,43 @@ func scenarioC07(r *Run) {
 	if detached {
 		rc.SetPayload(append([]byte{}, spec.Payload...))
 	}
+	// a receiver that empties its mailbox before it looks at anything: one or
+	// two further conforming messages of the same peer (small ones, any
+	// kind, other keys) are decoded now and verified after the first
+	type laterMsg struct {
+		spec *MsgSpec
+		w    *Wire
+		rc   *Received
+	}
+	var later []laterMsg
+	if t.Bool(1, 3, "c07.batch") {
+		for j, n := 0, 1+t.Choose(2, "c07.batch.n"); j < n; j++ {
+			kinds := []refcose.Kind{spec.Kind}
+			if t.Bool(1, 4, "c07.batch.anykind") {
+				kinds = nil
+			}
+			s2 := genSpec(t, SpecOpts{Kinds: kinds, MaxExtra: 2, MaxSigner: 2, Cheap: true})
+			w2 := r.ForeignWire(t, s2, genKnobs(t), ent, false, t.Choose(2, "c07.batch.csig"), false)
+			r.Op("FOREIGN_ISSUE", "(batch) %s", s2)
+			rc2, err2 := r.Decode(s2.Kind, w2.B)
+			r.Check()
+			if err2 != nil {
+				r.Fail("foreign-message-refused/"+s2.Kind.String(), "a conforming message in a valid non-deterministic encoding was refused (decoded after another one): %v\nwire: %s\nspec: %s", err2, hexShort(w2.B), s2)
+				return
+			}
+			later = append(later, laterMsg{s2, w2, rc2})
+		}
+		r.Fired("receiver.decodes-batch-before-verifying")
+	}
+	verifyLater := func() {
+		for _, l := range later {
+			r.Check()
+			if err := r.VerifyLib(l.rc, l.spec.External, r.verifiersFor(l.spec, false)...); err != nil {
+				r.Fail("foreign-message-does-not-verify/"+l.spec.Kind.String(), "a message signed by an independent implementation over its wire bytes does not verify when it is one of several decoded before any is verified: %v\nwire: %s\nspec: %s", err, hexShort(l.w.B), l.spec)
+				return
+			}
+		}
+	}
 	vs := r.verifiersFor(spec, false)
 	if t.Bool(1, 4, "c07.trial") {
 		// a receiver that tries its trusted keys one after the other: first a
@@ -118,4 +157,5 @@ func scenarioC07(r *Run) {
 		r.Outcome("countersigs-verified")
 		r.Probe("foreign-countersigs-verified")
 	}
+	verifyLater()
 }
